@@ -33,7 +33,7 @@ instance (buf : List Nat) : Decidable (FitsUsize buf) := by unfold FitsUsize; ex
 example : FitsUsize [0x12, 0xA5, 0xFF] := by decide
 
 macro "raw_simp" "[" ls:Lean.Parser.Tactic.simpLemma,* "]" loc:(Lean.Parser.Tactic.location)? : tactic =>
-  `(tactic| simp only [usize_add, usize_sub, usize_mul, usize_div, usize_rem, usize_lt, usize_checked_mul,
+  `(tactic| simp only [usize_add, usize_sub, usize_mul, usize_div, usize_rem, usize_lt, usize_le, usize_gt, usize_ge, usize_eq, usize_ne, usize_checked_mul,
       usize_saturating_add, usize_saturating_mul, usize_saturating_sub, u32_sub, u8_MAX, u16_MAX, u32_MAX, u8_BITS,
       u16_BITS, u32_BITS, u8_and, u8_or, u8_not, u8_shl, u8_shr, u16_and, u16_shr, u32_and, u32_shr, bool_and, bool_or,
       bool_not, u32_as_u8, u32_as_u16, u32_as_u32, u8_to_le_bytes, u8_to_be_bytes, u16_to_le_bytes, u16_to_be_bytes,
